@@ -221,6 +221,12 @@ func (p *Parser) MergeFile(path string) error {
 		return err
 	}
 
+	// Parents are not loaded here, but $parent is still a directive of the
+	// file layer, not document content.
+	for _, doc := range f.docs {
+		doc.PopMapValue("$parent")
+	}
+
 	return p.mergeFile(f)
 }
 
